@@ -17,7 +17,7 @@ from harness.common import z, coq_list, coq_bool
 ID = 'C03'
 PROPS_FILE = 'Props/Props_C03.v'
 EXTRA_TARGETS = ['Sched/Case.vo', 'Sched/CaseOff.vo', 'Sched/C03ReportCheck.vo', 'Sched/CapTie.vo']
-CONST_PARTS = ('sched', 'srcsched', 'srcfill')
+CONST_PARTS = ('sched', 'srcsched', 'srcfill', 'srcpass')
 FAIL = sc.BITS['c03']
 MISMATCH = sc.BITS['model_oracle']
 
